@@ -233,6 +233,13 @@ def fault_suites(fmt, tier):
     ]
 
 
+def eof_suites(fmt, tier):
+    """a source whose first read reports the end of the input (0 bytes) and that has data afterwards: the input the reader
+    has seen is empty, and the end it has reported is final"""
+    return [("eof-then-data-" + fmt, suite(fmt, rnd(q(tier, 150, 1500), maxrec=3, maxfield=3, damage=0), [16, 64], {"fixed": [NEXT, ITER, INTO, SET0, EXACT(2)]},
+                                         chunks=[[1000000, 0]], slots=1, extra=3), 2)]
+
+
 def near_capacity_inputs(fmt):
     out = []
     for cap in (512, 1024):
@@ -278,9 +285,9 @@ def build_jobs(prop, tier):
     """the jobs of one property"""
     J = []
     if prop == "C01":
-        J.append(ReaderJob("c01", plain_suites("fasta", tier)))
+        J.append(ReaderJob("c01", plain_suites("fasta", tier) + eof_suites("fasta", tier)))
     elif prop == "C02":
-        J.append(ReaderJob("c02", plain_suites("fastq", tier)))
+        J.append(ReaderJob("c02", plain_suites("fastq", tier) + eof_suites("fastq", tier)))
     elif prop == "C03":
         J.append(ReaderJob("c03", pair_suites("fasta", tier) + pair_suites("fastq", tier)))
     elif prop == "C04":
@@ -295,7 +302,8 @@ def build_jobs(prop, tier):
                            + policy_suites("fasta", tier)[3:] + policy_suites("fastq", tier)[1:2] + policy_suites("fastq", tier)[3:]))
     elif prop == "C06":
         J.append(ReaderJob("c06", plain_suites("fasta", tier)[-2:] + plain_suites("fastq", tier)[-2:] + history_suites("fasta", tier)[1:] + history_suites("fastq", tier)
-                           + fault_suites("fasta", tier) + fault_suites("fastq", tier) + policy_suites("fasta", tier)[:2] + policy_suites("fastq", tier)[:2]))
+                           + fault_suites("fasta", tier) + fault_suites("fastq", tier) + policy_suites("fasta", tier)[:2] + policy_suites("fastq", tier)[:2]
+                           + eof_suites("fasta", tier) + eof_suites("fastq", tier)))
     elif prop == "C09":
         J.append(ReaderJob("c09", policy_suites("fasta", tier) + policy_suites("fastq", tier)))
     elif prop == "C13":
@@ -622,7 +630,7 @@ def build_jobs(prop, tier):
     if prop == "C20":
         return [McJob("seqlinesiter", "SeqLinesIter", "SeqLinesIter", ["C20"], workers=4, timeout=600, xmx="4g"),
                 SimpleTvJob("iters", "iters", "TraceIter", tier),
-                ReaderJob("c20views", view_suites("fasta", tier)[1:2]),
+                ReaderJob("c20views", view_suites("fasta", tier)[1:2] + eof_suites("fasta", tier) + eof_suites("fastq", tier)),
                 ReaderJob("c20owned", [("owned-iter-fused", suite("fasta", rnd(q(tier, 400, 4000), maxrec=4, maxfield=4, damage=30), [3, 8, 64], {"fixed": [ITER, INTO]}, chunks=[[0]], slots=1, extra=3), 2),
                                        ("owned-iter-fused-fq", suite("fastq", rnd(q(tier, 400, 4000), maxrec=4, maxfield=4, damage=30), [3, 8, 64], {"fixed": [ITER, INTO]}, chunks=[[0]], slots=1, extra=3), 2)])]
     return _old_build_jobs2(prop, tier)
